@@ -24,7 +24,10 @@ var kleeneFamilies = map[string][]realisation{
 		{`exists($.zz)`, "strict"}, {`$.zz == 1`, "strict"}, {`(1 == "a") && (1 == 1)`, ""}, {`(1 == "a") || (1 == 2)`, ""}, {`$.a.zz == 1`, "strict"},
 		{`$.s > 1`, ""}, {`$ == $`, ""}},
 	"E": {{`$missing == 1`, ""}, {`exists($missing)`, ""}, {`$missing starts with "a"`, ""}, {`"a" starts with $missing`, ""}, {`$missing like_regex "a"`, ""},
-		{`!($missing == 1)`, ""}, {`(1 == 1) && ($missing == 1)`, ""}, {`(1 == 2) || ($missing == 1)`, ""}, {`$[$missing] == 1`, "lax"}},
+		{`!($missing == 1)`, ""}, {`(1 == 1) && ($missing == 1)`, ""}, {`(1 == 2) || ($missing == 1)`, ""}, {`$[$missing] == 1`, "lax"},
+		// errors raised by the comparison itself: zone-less vs zone-aware datetimes without WithTZ
+		{`"2015-08-02".date() == "2015-08-02T00:00:00+00:00".timestamp_tz()`, ""}, {`"2015-08-02T12:00:00".timestamp() < "2015-08-02T12:00:00+01:00".timestamp_tz()`, ""},
+		{`"12:00:00".time() >= "12:00:00+01".time_tz()`, ""}, {`"1".decimal(0) == 1`, ""}, {`"2015-08-02".timestamp_tz() == "2015-08-02T00:00:00+00:00".timestamp_tz()`, ""}},
 }
 
 const c11Doc = `{"a":1,"s":"a","l":[5,1],"m":[1,5]}`
@@ -106,7 +109,7 @@ func c11Observe(mode, ctxKind, pred string) (string, string) {
 	}
 	var text string
 	switch ctxKind {
-	case "top", "match":
+	case "top", "match", "match-silent", "existsormatch-silent":
 		text = prefix + pred
 	case "filter":
 		text = prefix + "$ ? (" + pred + ")"
@@ -120,8 +123,14 @@ func c11Observe(mode, ctxKind, pred string) (string, string) {
 		return "?", fmt.Sprintf("parse failure of %q: %v %s", text, err, pan)
 	}
 	doc := mustDoc(c11Doc, "float64")
-	if ctxKind == "match" {
+	if ctxKind == "match" || ctxKind == "match-silent" || ctxKind == "existsormatch-silent" {
 		o := implMatch(p, doc, runCfg{})
+		if ctxKind == "match-silent" {
+			o = implMatch(p, doc, runCfg{silent: true})
+		}
+		if ctxKind == "existsormatch-silent" {
+			o = implExistsOrMatch(p, doc, runCfg{silent: true})
+		}
 		switch {
 		case o.Class == "ok" && o.Bool:
 			return "T", o.String()
@@ -247,7 +256,7 @@ func checkC11(c Case) *Failure {
 }
 
 func runC11(r *Run) {
-	r.Rule("complete truth tables: for each connective (&&, ||, !, is unknown) every assignment of {T,F,U,E(hard error)} to its operands, each outcome realised by EVERY member of a family of 9-13 realisations (comparison, exists, starts with, like_regex, nested connective, is unknown, arithmetic error, strict structural error) => all ordered pairs of realisations, observed as a top-level predicate check (Query and Match), inside a filter, inside exists(filter), in both modes, against the Kleene tables (with an E operand: {hard error} or the value decided by the other operand); E also realised by the context ending at the k-th poll (every k; Canceled, DeadlineExceeded, cancel-with-cause) while the operand of is unknown is evaluated; then the laws (commutativity in value, double negation, De Morgan, is unknown two-valued) over all ordered pairs of a generated condition pool x all documents of <=3 nodes; non-trivial = every evaluated combination (each is a distinct program)")
+	r.Rule("complete truth tables: for each connective (&&, ||, !, is unknown) every assignment of {T,F,U,E(hard error)} to its operands, each outcome realised by EVERY member of a family of 9-13 realisations (comparison, exists, starts with, like_regex, nested connective, is unknown, arithmetic error, strict structural error; hard errors from an unbound variable, from a zone-less vs zone-aware datetime comparison without WithTZ, from a tz-requiring cast and from an invalid decimal precision) => all ordered pairs of realisations, observed as a top-level predicate check (Query, Match, Match and ExistsOrMatch under WithSilent), inside a filter, inside exists(filter), in both modes, against the Kleene tables (with an E operand: {hard error} or the value decided by the other operand); E also realised by the context ending at the k-th poll (every k; Canceled, DeadlineExceeded, cancel-with-cause) while the operand of is unknown is evaluated; then the laws (commutativity in value, double negation, De Morgan, is unknown two-valued) over all ordered pairs of a generated condition pool x all documents of <=3 nodes; non-trivial = every evaluated combination (each is a distinct program)")
 	type job struct{ c Case }
 	var jobs []Case
 	modes := []string{"lax", "strict"}
@@ -261,7 +270,7 @@ func runC11(r *Run) {
 			}
 		}
 	}
-	ctxs := []string{"top", "match", "filter", "exists", "filter-isunknown"}
+	ctxs := []string{"top", "match", "match-silent", "existsormatch-silent", "filter", "exists", "filter-isunknown"}
 	outs := []string{"T", "F", "U", "E"}
 	for _, mode := range modes {
 		for _, a := range outs {
